@@ -42,6 +42,13 @@ const fn mul_add(mut ui_a: u8, mut ui_b: u8, mut ui_c: u8, op: MulAddType) -> P8
         };
     }
 
+    // a*b - c = a*b + (-c) and c - a*b = (-a)*b + c: posit negation is exact
+    match op {
+        MulAddType::SubC => ui_c = ui_c.wrapping_neg(),
+        MulAddType::SubProd => ui_a = ui_a.wrapping_neg(),
+        MulAddType::Add => {}
+    }
+
     let sign_a = P8E0::sign_ui(ui_a);
     let sign_b = P8E0::sign_ui(ui_b);
     let sign_c = P8E0::sign_ui(ui_c); //^ (op == softposit_mulAdd_subC);
